@@ -986,8 +986,9 @@ class _Source:
 
     def _get_number_pattern(self):
         # HACK: It is merely an approaximation and does the job
-        integer = r"\-?(0[xo][\da-fA-F]+|\d+)"
-        return r"(%s(\.\d*)?|(\.\d+))([eE][-+]?\d+)?[jJ]?" % integer
+        # digits may be grouped with underscores; 0x/0o/0b prefixes in any case
+        integer = r"\-?(0[xXoObB][\da-fA-F_]+|\d[\d_]*)"
+        return r"(%s(\.[\d_]*)?|(\.\d[\d_]*))([eE][-+]?\d[\d_]*)?[jJ]?" % integer
 
     _string_pattern = None
     _number_pattern = None
